@@ -15,7 +15,7 @@
    (D4) eig_indep          : eigenvectors (non-zero on the window) for pairwise different eigenvalues are independent;
         eig_indep_border   : the same when only the first r eigenvalues differ from all others and the remaining columns
                              are known to be independent among themselves (companion matrix with a zero border);
-        modal_basis        : n eigenpairs with pairwise different eigenvalues give  A Phi = Phi diag(lam)  with a two-sided
+        modal_basis_exists        : n eigenpairs with pairwise different eigenvalues give  A Phi = Phi diag(lam)  with a two-sided
                              inverse Phii of the modal matrix - the witness C01_multiplicity / C01_no_spurious_pole /
                              C03_multiplicity / C05_pole_count take as hypothesis (ediag is convertible with the fdiag's);
         modal_basis_list   : the same from a NoDup list of n eigenvalues each having some eigenvector;
@@ -68,14 +68,14 @@ Let idr := fmul_id_r R K Rth.
 Let Hint : forall a b:R, a * b = 0 -> a = 0 \/ b = 0 := field_integral R K Fth Rdec.
 Let H10 : 1 <> 0 := field_one_neq_zero R K Fth.
 
-Lemma sumn_S n (f:nat -> R) : sumn K (S n) f = sumn K n f + f n.
+Lemma dim_sumn_S n (f:nat -> R) : sumn K (S n) f = sumn K n f + f n.
 Proof. reflexivity. Qed.
 
 (* ================= (D1) Steinitz: n+1 vectors of K^n are dependent ================= *)
 (* v k i = i-th coordinate of the k-th vector.  Induction on n: if the last vector vanishes on the window it is itself a
    dependence; otherwise it has a non-zero coordinate q, which is eliminated from the others, and the remaining n-1
-   coordinates (re-indexed by skip q) fall under the induction hypothesis. *)
-Definition skip (q i:nat) : nat := if Nat.ltb i q then i else S i.
+   coordinates (re-indexed by dim_skip q) fall under the induction hypothesis. *)
+Definition dim_skip (q i:nat) : nat := if Nat.ltb i q then i else S i.
 
 Theorem lin_dep : forall (n:nat) (v:nat -> nat -> R),
   exists c:nat -> R, (exists k, (k <= n)%nat /\ c k <> 0) /\
@@ -86,27 +86,27 @@ Proof.
   - destruct (fnz_spec R K Rdec (fun i => v (S n) i) (S n)) as [Hz|[Hq1 Hq2]].
     + exists (fun k => if Nat.eqb k (S n) then 1 else 0). split.
       * exists (S n). split; [lia|]. rewrite Nat.eqb_refl. exact H10.
-      * intros i Hi. rewrite (sumn_S (S n)). rewrite Nat.eqb_refl. cbn beta in Hz. rewrite (Hz i Hi).
+      * intros i Hi. rewrite (dim_sumn_S (S n)). rewrite Nat.eqb_refl. cbn beta in Hz. rewrite (Hz i Hi).
         rewrite (sumn_allz R K Rth (S n)); [ring|].
         intros k Hk. destruct (Nat.eqb_spec k (S n)); [lia|ring].
     + set (q := fnz R K Rdec (fun i => v (S n) i) (S n)) in *. cbn beta in Hq2.
       set (p := v (S n) q) in *.
-      set (w := fun k i => v k (skip q i) - (v k q / p) * v (S n) (skip q i)).
+      set (w := fun k i => v k (dim_skip q i) - (v k q / p) * v (S n) (dim_skip q i)).
       destruct (IH w) as [c [[k0 [Hk0 Hc0]] Hc]].
       assert (Hall: forall i, (i < S n)%nat ->
                 sumn K (S n) (fun k => c k * (v k i - (v k q / p) * v (S n) i)) = 0).
       { intros i Hi. destruct (Nat.eq_dec i q) as [->|Hne].
         - apply (sumn_allz R K Rth). intros k Hk. fold p. field. exact Hq2.
         - destruct (Nat.ltb_spec i q) as [Hlt|Hge].
-          + assert (Hin: (i < n)%nat) by lia. pose proof (Hc i Hin) as E. unfold w, skip in E.
+          + assert (Hin: (i < n)%nat) by lia. pose proof (Hc i Hin) as E. unfold w, dim_skip in E.
             destruct (Nat.ltb_spec i q); [exact E|lia].
-          + assert (Hin: (i - 1 < n)%nat) by lia. pose proof (Hc (i - 1)%nat Hin) as E. unfold w, skip in E.
+          + assert (Hin: (i - 1 < n)%nat) by lia. pose proof (Hc (i - 1)%nat Hin) as E. unfold w, dim_skip in E.
             destruct (Nat.ltb_spec (i - 1) q); [lia|].
             replace (S (i - 1)) with i in E by lia. exact E. }
       set (t := sumn K (S n) (fun k => c k * (v k q / p))).
       exists (fun k => if Nat.eqb k (S n) then - t else c k). split.
       * exists k0. split; [lia|]. destruct (Nat.eqb_spec k0 (S n)); [lia|exact Hc0].
-      * intros i Hi. rewrite (sumn_S (S n)). rewrite Nat.eqb_refl.
+      * intros i Hi. rewrite (dim_sumn_S (S n)). rewrite Nat.eqb_refl.
         rewrite (sumn_ext R K (S n) _ (fun k => c k * v k i)).
         2:{ intros k Hk. destruct (Nat.eqb_spec k (S n)); [lia|reflexivity]. }
         rewrite <- (Hall i Hi).
@@ -161,7 +161,7 @@ Proof.
   { intros j Hj.
     destruct (lin_dep n (fun k i => if Nat.ltb k n then P i k else fI i j)) as [c [[k0 [Hk0 Hc0]] Hc]].
     assert (Hc': forall i, (i < n)%nat -> sumn K n (fun k => c k * P i k) + c n * fI i j = 0).
-    { intros i Hi. rewrite <- (Hc i Hi). rewrite (sumn_S n). rewrite Nat.ltb_irrefl. f_equal.
+    { intros i Hi. rewrite <- (Hc i Hi). rewrite (dim_sumn_S n). rewrite Nat.ltb_irrefl. f_equal.
       apply sumn_ext. intros k Hk. destruct (Nat.ltb_spec k n); [reflexivity|lia]. }
     destruct (Rdec (c n) 0) as [Hcn|Hcn].
     - exfalso. assert (Hz: forall k, (k < n)%nat -> c k = 0).
@@ -316,7 +316,7 @@ Definition eigpair_col (n:nat) (A:fmat R) (lam:R) (v:fmat R) : Prop :=
 (* the modal matrix [v_0 | .. | v_{n-1}] *)
 Definition modal_mat (v:nat -> fmat R) : fmat R := fun i k => v k i 0%nat.
 
-Theorem modal_basis n (A:fmat R) (lam:nat -> R) (v:nat -> fmat R) :
+Theorem modal_basis_exists n (A:fmat R) (lam:nat -> R) (v:nat -> fmat R) :
   (forall k, (k < n)%nat -> eigpair_col n A (lam k) (v k)) ->
   (forall i j, (i < n)%nat -> (j < n)%nat -> i <> j -> lam i <> lam j) ->
   cols_indep n n (modal_mat v) /\
@@ -350,7 +350,7 @@ Proof.
   assert (Hv: forall k, (k < n)%nat -> exists v, eigpair_col n A (lam k) v).
   { intros k Hk. apply Hex. apply nth_In. lia. }
   destruct (fin_choice (fmat R) (fzero K) _ n Hv) as [v Hvv].
-  destruct (modal_basis n A lam v Hvv Hd) as [_ [H1 [Phii [H2 H3]]]].
+  destruct (modal_basis_exists n A lam v Hvv Hd) as [_ [H1 [Phii [H2 H3]]]].
   exists (modal_mat v), Phii, lam.
   split; [unfold tab; rewrite <- Hlen; apply tab_lget_id|].
   split; [exact Hd|]. split; [|split; [exact H1|split; [exact H2|exact H3]]].
@@ -475,7 +475,7 @@ Let Hint : forall a b:R, a * b = 0 -> a = 0 \/ b = 0 := field_integral R K Fth R
 Definition svd_shape (m n k:nat) (H U:fmat R) (S:nat -> R) (V:fmat R) : Prop :=
   feq m n H (fm k (fm k U (dg S)) (ftr V)) /\ feq k k (fm m (ftr U) U) fI /\ feq k k (fm n (ftr V) V) fI.
 
-Lemma sumn_trunc n r (f:nat -> R) : (r <= n)%nat -> (forall j, (r <= j < n)%nat -> f j = 0) -> sumn K n f = sumn K r f.
+Lemma dim_sumn_trunc n r (f:nat -> R) : (r <= n)%nat -> (forall j, (r <= j < n)%nat -> f j = 0) -> sumn K n f = sumn K r f.
 Proof.
   intros Hr Hz. replace n with (r + (n - r))%nat by lia. rewrite (sumn_split R K Rth).
   rewrite (sumn_allz R K Rth (n - r)); [ring|]. intros j Hj. apply Hz. lia.
@@ -501,20 +501,20 @@ Hypothesis Hgap2 : forall a b, (a < ord)%nat -> (ord <= b < n)%nat -> S2 a * S2 
 Hypothesis HSnz : forall a, (a < ord)%nat -> S a <> 0.
 Hypothesis HS2nz : forall a, (a < ord)%nat -> S2 a <> 0.
 
-Definition Wm : fmat R := fm n (ftr V) V2.
-Definition Zm : fmat R := fm m (ftr U) U2.
+Definition ssu_W : fmat R := fm n (ftr V) V2.
+Definition ssu_Z : fmat R := fm m (ftr U) U2.
 
-Lemma W_rel1 i j : (i < n)%nat -> (j < n)%nat -> S i * Wm i j = Zm i j * S2 j.
+Lemma ssu_rel1 i j : (i < n)%nat -> (j < n)%nat -> S i * ssu_W i j = ssu_Z i j * S2 j.
 Proof.
   intros Hi Hj.
-  assert (E: feq n n (fm n (dg S) Wm) (fm n Zm (dg S2))).
-  { unfold Wm, Zm. rewrite <- (assoc n n n n (dg S) (ftr V) V2). rewrite <- (svd_UtH m n n H U S V C1).
+  assert (E: feq n n (fm n (dg S) ssu_W) (fm n ssu_Z (dg S2))).
+  { unfold ssu_W, ssu_Z. rewrite <- (assoc n n n n (dg S) (ftr V) V2). rewrite <- (svd_UtH m n n H U S V C1).
     rewrite (assoc n m n n (ftr U) H V2). rewrite (svd_HV m n n H U2 S2 V2 C2).
     rewrite <- (assoc n m n n (ftr U) U2 (dg S2)). reflexivity. }
   pose proof (E i j Hi Hj) as E1.
-  rewrite (fmul_ediag_l R K Rth n S Wm i j Hi), (fmul_ediag_r R K Rth n Zm S2 i j Hj) in E1. exact E1.
+  rewrite (fmul_ediag_l R K Rth n S ssu_W i j Hi), (fmul_ediag_r R K Rth n ssu_Z S2 i j Hj) in E1. exact E1.
 Qed.
-Lemma W_rel2 i j : (i < n)%nat -> (j < n)%nat -> S2 j * Wm i j = Zm i j * S i.
+Lemma ssu_rel2 i j : (i < n)%nat -> (j < n)%nat -> S2 j * ssu_W i j = ssu_Z i j * S i.
 Proof.
   intros Hi Hj.
   assert (E: feq n n (fm n (dg S2) (fm n (ftr V2) V)) (fm n (fm m (ftr U2) U) (dg S))).
@@ -523,63 +523,63 @@ Proof.
     rewrite <- (assoc n m n n (ftr U2) U (dg S)). reflexivity. }
   pose proof (E j i Hj Hi) as E1.
   rewrite (fmul_ediag_l R K Rth n S2 _ j i Hj), (fmul_ediag_r R K Rth n _ S j i Hi) in E1.
-  assert (Ew: fm n (ftr V2) V j i = Wm i j).
-  { unfold Wm, fmul, ftr. apply sumn_ext. intros k Hk. ring. }
-  assert (Ez: fm m (ftr U2) U j i = Zm i j).
-  { unfold Zm, fmul, ftr. apply sumn_ext. intros k Hk. ring. }
+  assert (Ew: fm n (ftr V2) V j i = ssu_W i j).
+  { unfold ssu_W, fmul, ftr. apply sumn_ext. intros k Hk. ring. }
+  assert (Ez: fm m (ftr U2) U j i = ssu_Z i j).
+  { unfold ssu_Z, fmul, ftr. apply sumn_ext. intros k Hk. ring. }
   rewrite Ew, Ez in E1. exact E1.
 Qed.
-Lemma W_zero i j : (i < n)%nat -> (j < n)%nat -> S i * S i <> S2 j * S2 j -> Wm i j = 0.
+Lemma ssu_zero i j : (i < n)%nat -> (j < n)%nat -> S i * S i <> S2 j * S2 j -> ssu_W i j = 0.
 Proof.
   intros Hi Hj Hne.
-  assert (E: (S i * S i - S2 j * S2 j) * Wm i j = 0).
-  { transitivity (S i * (S i * Wm i j) - S2 j * (S2 j * Wm i j)); [ring|].
-    rewrite (W_rel1 i j Hi Hj), (W_rel2 i j Hi Hj). ring. }
+  assert (E: (S i * S i - S2 j * S2 j) * ssu_W i j = 0).
+  { transitivity (S i * (S i * ssu_W i j) - S2 j * (S2 j * ssu_W i j)); [ring|].
+    rewrite (ssu_rel1 i j Hi Hj), (ssu_rel2 i j Hi Hj). ring. }
   destruct (Hint _ _ E) as [E0|E0]; [exfalso|exact E0].
   apply Hne. transitivity ((S i * S i - S2 j * S2 j) + S2 j * S2 j); [ring|]. rewrite E0. ring.
 Qed.
-Lemma W_off1 i j : (i < ord)%nat -> (ord <= j < n)%nat -> Wm i j = 0.
-Proof. intros Hi Hj. apply W_zero; [lia|lia|]. apply Hgap1; assumption. Qed.
-Lemma W_off2 i j : (ord <= i < n)%nat -> (j < ord)%nat -> Wm i j = 0.
-Proof. intros Hi Hj. apply W_zero; [lia|lia|]. intros E. apply (Hgap2 j i Hj Hi). symmetry. exact E. Qed.
+Lemma ssu_off1 i j : (i < ord)%nat -> (ord <= j < n)%nat -> ssu_W i j = 0.
+Proof. intros Hi Hj. apply ssu_zero; [lia|lia|]. apply Hgap1; assumption. Qed.
+Lemma ssu_off2 i j : (ord <= i < n)%nat -> (j < ord)%nat -> ssu_W i j = 0.
+Proof. intros Hi Hj. apply ssu_zero; [lia|lia|]. intros E. apply (Hgap2 j i Hj Hi). symmetry. exact E. Qed.
 
-Lemma W_orth : feq n n (fm n Wm (ftr Wm)) fI.
+Lemma ssu_orth : feq n n (fm n ssu_W (ftr ssu_W)) fI.
 Proof.
   destruct C1 as [_ [_ HV]]. destruct C2 as [_ [_ HV2]].
   pose proof (orth_square R K Fth Rdec n V2 HV2) as HV2r.
-  assert (Et: feq n n (ftr Wm) (fm n (ftr V2) V)).
-  { intros i j Hi Hj. unfold Wm, fmul, ftr. apply sumn_ext. intros k Hk. ring. }
-  rewrite Et. unfold Wm. rewrite (assoc n n n n (ftr V) V2 (fm n (ftr V2) V)).
+  assert (Et: feq n n (ftr ssu_W) (fm n (ftr V2) V)).
+  { intros i j Hi Hj. unfold ssu_W, fmul, ftr. apply sumn_ext. intros k Hk. ring. }
+  rewrite Et. unfold ssu_W. rewrite (assoc n n n n (ftr V) V2 (fm n (ftr V2) V)).
   rewrite <- (assoc n n n n V2 (ftr V2) V). rewrite HV2r. rewrite (idl n n V). exact HV.
 Qed.
 
-Definition Tm : fmat R := fun i j => S i * Wm i j / S2 j.
-Definition Tim : fmat R := fun j k => S2 j * Wm k j / S k.
+Definition ssu_T : fmat R := fun i j => S i * ssu_W i j / S2 j.
+Definition ssu_Ti : fmat R := fun j k => S2 j * ssu_W k j / S k.
 
 Theorem svd_subspace_core :
-  feq ord ord (fm ord Tm Tim) fI /\ feq m ord U2 (fm ord U Tm).
+  feq ord ord (fm ord ssu_T ssu_Ti) fI /\ feq m ord U2 (fm ord U ssu_T).
 Proof.
   split.
-  - intros i k Hi Hk. unfold fmul, Tm, Tim.
-    rewrite (sumn_ext R K ord _ (fun j => (S i / S k) * (Wm i j * ftr Wm j k))).
+  - intros i k Hi Hk. unfold fmul, ssu_T, ssu_Ti.
+    rewrite (sumn_ext R K ord _ (fun j => (S i / S k) * (ssu_W i j * ftr ssu_W j k))).
     2:{ intros j Hj. unfold ftr. field. split; [apply HSnz; exact Hk|apply HS2nz; exact Hj]. }
     rewrite (sumn_scal R K Rth).
-    rewrite <- (sumn_trunc n ord (fun j => Wm i j * ftr Wm j k) Hord).
-    2:{ intros j Hj. rewrite (W_off1 i j Hi Hj). ring. }
-    pose proof (W_orth i k ltac:(lia) ltac:(lia)) as E. unfold fmul at 1 in E. rewrite E. unfold fid.
+    rewrite <- (dim_sumn_trunc n ord (fun j => ssu_W i j * ftr ssu_W j k) Hord).
+    2:{ intros j Hj. rewrite (ssu_off1 i j Hi Hj). ring. }
+    pose proof (ssu_orth i k ltac:(lia) ltac:(lia)) as E. unfold fmul at 1 in E. rewrite E. unfold fid.
     destruct (Nat.eqb_spec i k) as [->|Hne]; [field; apply HSnz; exact Hk|field; apply HSnz; exact Hk].
   - intros a j Ha Hj.
-    assert (E: feq m n (fm n U2 (dg S2)) (fm n (fm n U (dg S)) Wm)).
-    { rewrite <- (svd_HV m n n H U2 S2 V2 C2). destruct C1 as [HH _]. rewrite HH. unfold Wm.
+    assert (E: feq m n (fm n U2 (dg S2)) (fm n (fm n U (dg S)) ssu_W)).
+    { rewrite <- (svd_HV m n n H U2 S2 V2 C2). destruct C1 as [HH _]. rewrite HH. unfold ssu_W.
       apply (assoc m n n n (fm n U (dg S)) (ftr V) V2). }
     pose proof (E a j Ha ltac:(lia)) as E1. rewrite (fmul_ediag_r R K Rth n U2 S2 a j ltac:(lia)) in E1.
     unfold fmul at 1 in E1.
-    rewrite (sumn_trunc n ord _ Hord) in E1.
-    2:{ intros i Hi. rewrite (W_off2 i j Hi Hj). ring. }
+    rewrite (dim_sumn_trunc n ord _ Hord) in E1.
+    2:{ intros i Hi. rewrite (ssu_off2 i j Hi Hj). ring. }
     transitivity ((U2 a j * S2 j) / S2 j); [field; apply HS2nz; exact Hj|]. rewrite E1.
-    change (fm ord U Tm a j) with (sumn K ord (fun i => U a i * Tm i j)).
-    rewrite (sumn_ext R K ord (fun i => U a i * Tm i j) (fun i => (fm n U (dg S) a i * Wm i j) * (1 / S2 j))).
-    2:{ intros i Hi. rewrite (fmul_ediag_r R K Rth n U S a i ltac:(lia)). unfold Tm. field. apply HS2nz; exact Hj. }
+    change (fm ord U ssu_T a j) with (sumn K ord (fun i => U a i * ssu_T i j)).
+    rewrite (sumn_ext R K ord (fun i => U a i * ssu_T i j) (fun i => (fm n U (dg S) a i * ssu_W i j) * (1 / S2 j))).
+    2:{ intros i Hi. rewrite (fmul_ediag_r R K Rth n U S a i ltac:(lia)). unfold ssu_T. field. apply HS2nz; exact Hj. }
     rewrite (sumn_scal_r R K Rth). field. apply HS2nz; exact Hj.
 Qed.
 End Two.
@@ -595,7 +595,7 @@ Proof.
   destruct (svd_subspace_core m n ord H U S V U2 S2 V2 Hord C1 C2
               (fun a b Ha Hb => proj1 (Hgap a b Ha Hb)) (fun a b Ha Hb => proj2 (Hgap a b Ha Hb))
               (fun a Ha => proj1 (Hnz a Ha)) (fun a Ha => proj2 (Hnz a Ha))) as [E1 E2].
-  exists (Tm n S V S2 V2), (Tim n S V S2 V2). split; [exact E1|split; [|exact E2]].
+  exists (ssu_T n S V S2 V2), (ssu_Ti n S V S2 V2). split; [exact E1|split; [|exact E2]].
   apply (right_inv_is_left_inv R K Fth Rdec). exact E1.
 Qed.
 End SingularSubspace.
@@ -620,7 +620,7 @@ Print Assumptions orth_square.
 Print Assumptions inv_transpose.
 Print Assumptions eig_indep_border.
 Print Assumptions eig_indep.
-Print Assumptions modal_basis.
+Print Assumptions modal_basis_exists.
 Print Assumptions modal_basis_list.
 Print Assumptions spectrum_complete.
 Print Assumptions spectrum_complete_similar.
@@ -634,9 +634,9 @@ Print Assumptions cplx_spectrum_complete.
 Print Assumptions qcc_spectrum_complete.
 
 (* ---------- concrete instances ---------- *)
-Definition ex_of (M:list (list Qc)) : fmat Qc := fun i j => ent QcOps M i j.
-Definition ex_dim_A : fmat Qc := ex_of [[Q2Qc 2; Q2Qc 1; Q2Qc 0]; [Q2Qc 1; Q2Qc 1; Q2Qc 1]; [Q2Qc 0; Q2Qc 1; Q2Qc 3]].
-Definition ex_dim_B : fmat Qc := ex_of [[Q2Qc 2; Q2Qc (-3); Q2Qc 1]; [Q2Qc (-3); Q2Qc 6; Q2Qc (-2)]; [Q2Qc 1; Q2Qc (-2); Q2Qc 1]].
+Definition ex_dim_of (M:list (list Qc)) : fmat Qc := fun i j => ent QcOps M i j.
+Definition ex_dim_A : fmat Qc := ex_dim_of [[Q2Qc 2; Q2Qc 1; Q2Qc 0]; [Q2Qc 1; Q2Qc 1; Q2Qc 1]; [Q2Qc 0; Q2Qc 1; Q2Qc 3]].
+Definition ex_dim_B : fmat Qc := ex_dim_of [[Q2Qc 2; Q2Qc (-3); Q2Qc 1]; [Q2Qc (-3); Q2Qc 6; Q2Qc (-2)]; [Q2Qc 1; Q2Qc (-2); Q2Qc 1]].
 
 (* (D2) exercised: B A = I is checked by computation, A B = I is then concluded by the theorem (and confirmed by computation) *)
 Example dim_example_inverse :
@@ -648,7 +648,7 @@ Proof.
 Qed.
 
 (* (D4) exercised: [[2,0],[1,3]] has the eigenpairs (2,(1,-1)) and (3,(0,1)); hence 5 is not an eigenvalue *)
-Definition ex_dim_M : fmat Qc := ex_of [[Q2Qc 2; Q2Qc 0]; [Q2Qc 1; Q2Qc 3]].
+Definition ex_dim_M : fmat Qc := ex_dim_of [[Q2Qc 2; Q2Qc 0]; [Q2Qc 1; Q2Qc 3]].
 Example dim_example_spectrum : forall w, ~ eigpair_col QcOps 2 ex_dim_M (Q2Qc 5) w.
 Proof.
   intros w Hw.
@@ -656,10 +656,10 @@ Proof.
   { apply (qc_spectrum_complete 2 ex_dim_M [Q2Qc 2; Q2Qc 3]) with (w := w); [reflexivity| | |exact Hw].
     - constructor; [intros [E|[]]; discriminate E|constructor; [intros []|constructor]].
     - intros l [<-|[<-|[]]].
-      + exists (ex_of [[Q2Qc 1]; [Q2Qc (-1)]]). split.
+      + exists (ex_dim_of [[Q2Qc 1]; [Q2Qc (-1)]]). split.
         * apply ec_feqb_sound. vm_compute. reflexivity.
         * intros E. specialize (E 0%nat 0%nat ltac:(lia) ltac:(lia)). discriminate E.
-      + exists (ex_of [[Q2Qc 0]; [Q2Qc 1]]). split.
+      + exists (ex_dim_of [[Q2Qc 0]; [Q2Qc 1]]). split.
         * apply ec_feqb_sound. vm_compute. reflexivity.
         * intros E. specialize (E 1%nat 0%nat ltac:(lia) ltac:(lia)). discriminate E. }
   destruct Hin as [E|[E|[]]]; discriminate E.
@@ -668,11 +668,11 @@ Qed.
 (* (D5) why svd_subspace_unique asks for a gap on the SQUARES: over Qc, H = diag(1,-1) = I diag(1,-1) I^T
    = U2 diag(1,-1) V2^T with V2 a 3-4-5 rotation; both decompositions meet the contract, the "singular values" agree
    and S 0 <> S 1, yet the first column of U2 is no multiple of the first column of U *)
-Definition ex_dim_H := ex_of [[Q2Qc 1; Q2Qc 0]; [Q2Qc 0; Q2Qc (-1)]].
-Definition ex_dim_I := ex_of [[Q2Qc 1; Q2Qc 0]; [Q2Qc 0; Q2Qc 1]].
+Definition ex_dim_H := ex_dim_of [[Q2Qc 1; Q2Qc 0]; [Q2Qc 0; Q2Qc (-1)]].
+Definition ex_dim_I := ex_dim_of [[Q2Qc 1; Q2Qc 0]; [Q2Qc 0; Q2Qc 1]].
 Definition ex_dim_S : nat -> Qc := fun i => lget QcOps [Q2Qc 1; Q2Qc (-1)] i.
-Definition ex_dim_U2 := ex_of [[Q2Qc (3#5); Q2Qc (4#5)]; [Q2Qc (-4#5); Q2Qc (3#5)]].
-Definition ex_dim_V2 := ex_of [[Q2Qc (3#5); Q2Qc (-4#5)]; [Q2Qc (4#5); Q2Qc (3#5)]].
+Definition ex_dim_U2 := ex_dim_of [[Q2Qc (3#5); Q2Qc (4#5)]; [Q2Qc (-4#5); Q2Qc (3#5)]].
+Definition ex_dim_V2 := ex_dim_of [[Q2Qc (3#5); Q2Qc (-4#5)]; [Q2Qc (4#5); Q2Qc (3#5)]].
 Example dim_example_svd_sign :
   svd_shape QcOps 2 2 2 ex_dim_H ex_dim_I ex_dim_S ex_dim_I /\
   svd_shape QcOps 2 2 2 ex_dim_H ex_dim_U2 ex_dim_S ex_dim_V2 /\
